@@ -655,6 +655,9 @@ func overlapParts(res *http.Response, pick uint64, c int64, data []byte) {
 				n++
 			}
 		}
+		// recount: a part need not end on a chunk boundary (a request for the first byte only),
+		// and the superset above may have been cut at the end of the blob
+		n = (e-b)/c + 1
 		if n < 2 {
 			out = append(out, [2]int64{b, e}, [2]int64{b, e})
 			continue
@@ -687,6 +690,12 @@ func overlapParts(res *http.Response, pick uint64, c int64, data []byte) {
 		return
 	}
 	for _, x := range out {
+		if x[1] >= size {
+			x[1] = size - 1
+		}
+		if x[0] < 0 || x[0] > x[1] {
+			continue
+		}
 		h := textproto.MIMEHeader{}
 		h.Set("Content-Type", "application/octet-stream")
 		h.Set("Content-Range", fmt.Sprintf("bytes %d-%d/%d", x[0], x[1], size))
